@@ -1,7 +1,13 @@
 //! Formatting stubs: error *texts* are not examined by the bookkeeping
 //! harnesses (only Ok/Err and position), so building them is cut out.
 pub fn format(_args: core::fmt::Arguments<'_>) -> String {
-    String::new()
+    // A real one-byte allocation, not String::new(): CBMC reported spurious
+    // __rust_dealloc failures when an Err(String::new()) produced under a
+    // symbolic condition was dropped (the dangling pointer of an empty String
+    // merged with a heap pointer).
+    let mut s = String::with_capacity(1);
+    s.push('e');
+    s
 }
 pub fn write(_w: &mut dyn core::fmt::Write, _args: core::fmt::Arguments<'_>) -> core::fmt::Result {
     Ok(())
